@@ -4,6 +4,9 @@ import AvroModel.Props.C07
 import AvroModel.Lemmas.EndToEnd
 import AvroModel.Lemmas.RoundTrip
 import AvroModel.Lemmas.NormSpec
+import AvroModel.Lemmas.ReadBudget
+import AvroModel.Lemmas.GoBudget
+import AvroModel.Props.C03
 /-!
 # C01 — Encode-then-read round trip preserves every record
 
@@ -47,6 +50,18 @@ theorem record_exact (c : Codec) (s : ASchema) (hcf : CodecFor c s) (n n' m m' :
   rcases h with h | h
   · exact h
   · exact absurd h hnf
+
+/-- `record_exact` with an explicit step budget instead of the hypothesis "did not run out of
+budget": every `n' ≥ readBudget c v = Codec.sz c + 2 * Value.sz v + 2` (a function of the codec and
+the written datum only) decodes the written bytes exactly, whatever follows them. -/
+theorem record_exact_budget (c : Codec) (s : ASchema) (hcf : CodecFor c s) (n n' m m' : Nat) (g dst g' : GoVal) (bs bs' rest : Bytes) (v : Value)
+    (hw : write env n c g = some bs) (ht : toAvro env (omits env) m c g = some v)
+    (he : encode (canonPlan v) s v = some bs') (hf : ofAvro env m' c v dst = .ok g')
+    (hn : readBudget c v ≤ n') :
+    read env n' c (bs ++ rest) dst = .ok (g', rest) := by
+  have := C13.write_valid env c s hcf n m g bs bs' v hw ht he
+  subst this
+  exact read_exact env hcf he hn rest hf
 
 /-- a block payload is the concatenation of its records' encodings, so the records of a block decode
 one after the other: after the first record the reader stands exactly at the second -/
@@ -135,6 +150,27 @@ theorem value_roundtrip (c : Codec) (s : ASchema) (hcf : CodecFor c s) (n n' m m
     read env n' c (bs ++ rest) (Codec.zero env c) = .ok (normCodec env m' c g, rest) :=
   record_exact env c s hcf n n' m m' g _ _ bs bs' rest v hw ht he (roundTrip env m' m c g v ht hok) hnf
 
+/-- **C01, values, explicit budget**: `value_roundtrip` for every read budget
+`n' ≥ readBudget c v` (`v` the written datum); no hypothesis mentions `.fuel`. -/
+theorem value_roundtrip_budget (c : Codec) (s : ASchema) (hcf : CodecFor c s) (n n' m m' : Nat) (g : GoVal)
+    (bs bs' rest : Bytes) (v : Value)
+    (hw : write env n c g = some bs) (ht : toAvro env (omits env) m c g = some v)
+    (he : encode (canonPlan v) s v = some bs') (hok : RTOk env m' c g)
+    (hn : readBudget c v ≤ n') :
+    read env n' c (bs ++ rest) (Codec.zero env c) = .ok (normCodec env m' c g, rest) :=
+  record_exact_budget env c s hcf n n' m m' g _ _ bs bs' rest v hw ht he (roundTrip env m' m c g v ht hok) hn
+
+/-- the same with a budget computed from the written Go value alone:
+`goBudget c g = Codec.sz c + 2 * ((Codec.sz c + 1) * (GoVal.sz g + 1)) + 2` -/
+theorem value_roundtrip_go (c : Codec) (s : ASchema) (hcf : CodecFor c s) (n n' m m' : Nat) (g : GoVal)
+    (bs bs' rest : Bytes) (v : Value)
+    (hw : write env n c g = some bs) (ht : toAvro env (omits env) m c g = some v)
+    (he : encode (canonPlan v) s v = some bs') (hok : RTOk env m' c g)
+    (hn : goBudget c g ≤ n') :
+    read env n' c (bs ++ rest) (Codec.zero env c) = .ok (normCodec env m' c g, rest) :=
+  value_roundtrip_budget env c s hcf n n' m m' g bs bs' rest v hw ht he hok
+    (Nat.le_trans (readBudget_le_goBudget env _ ht) hn)
+
 /-! non-vacuity: the codec the library builds for `struct { M map[string]int64; P *string; Q *[]int32 }` with a one-entry map, a
 non-nil string pointer and a nil slice pointer (which reads back as a pointer to the empty slice) -/
 
@@ -161,6 +197,20 @@ example : read toyEnv 10 exCodec (exBytes ++ [255]) (Codec.zero toyEnv exCodec)
     (ne_fuel_of (by decide +kernel))
   simpa [normCodec, exCodec, exVal, normFieldsWith, listSet, Codec.stripPtr, nilForm, omits] using this
 
+/-- the same through `value_roundtrip_budget`: `readBudget exCodec exDatum = 9 + 2 * 8 + 2 = 27`, and no
+evaluation of `read` is needed to discharge a hypothesis -/
+example : readBudget exCodec exDatum = 27 := by decide +kernel
+
+example (rest : Bytes) : read toyEnv 27 exCodec (exBytes ++ rest) (Codec.zero toyEnv exCodec)
+    = .ok (.struct [.map false [[97]] [.int 7], .ptr (some (.str [104, 105])), .ptr (some (.slice []))], rest) := by
+  have hcf : CodecFor exCodec exSchema :=
+    .record (.cons (.map .intL) (.cons (.unionOne1 (.pointer .string)) (.cons (.pointer (.array .intI)) .nil))) rfl
+  have := value_roundtrip_budget toyEnv exCodec exSchema hcf 10 27 10 5 exVal exBytes exBytes rest exDatum
+    (by decide +kernel) (by rfl) (by decide +kernel)
+    (by simp [RTOk, exCodec, exVal, FieldsOk, Codec.zero, inRange, Codec.ptrDepth])
+    (by decide +kernel)
+  simpa [normCodec, exCodec, exVal, normFieldsWith, listSet, Codec.stripPtr, nilForm, omits] using this
+
 /-- `normCodec` is a normal form (1): normalising twice is normalising once -/
 theorem norm_idempotent (h : EnvLaws env) (n : Nat) (c : Codec) (g : GoVal) (hok : RTOk env n c g) :
     normCodec env n c (normCodec env n c g) = normCodec env n c g :=
@@ -177,6 +227,17 @@ theorem value_roundtrip_exact (h : EnvLaws env) (c : Codec) (s : ASchema) (hcf :
   have := value_roundtrip env c s hcf n n' m m' g bs bs' rest v hw ht he hok hnf
   rwa [normCodec_plain env h m' c g hp] at this
 
+/-- `value_roundtrip_exact` with an explicit budget: a plain value is read back exactly as it was
+written by every read budget `n' ≥ readBudget c v` -/
+theorem value_roundtrip_exact_budget (h : EnvLaws env) (c : Codec) (s : ASchema) (hcf : CodecFor c s) (n n' m m' : Nat)
+    (g : GoVal) (bs bs' rest : Bytes) (v : Value)
+    (hw : write env n c g = some bs) (ht : toAvro env (omits env) m c g = some v)
+    (he : encode (canonPlan v) s v = some bs') (hok : RTOk env m' c g) (hp : Plain env m' c g)
+    (hn : readBudget c v ≤ n') :
+    read env n' c (bs ++ rest) (Codec.zero env c) = .ok (g, rest) := by
+  have := value_roundtrip_budget env c s hcf n n' m m' g bs bs' rest v hw ht he hok hn
+  rwa [normCodec_plain env h m' c g hp] at this
+
 /-- **C01 against the documented normalisations**: for a Go type `T` of the fragment of
 `normSpec_agrees`, the codec `c` of `T` and a well-typed value `g`, the value `r` read back from what
 was written for `g` equals `g` up to the documented normalisations and the recorded deviations
@@ -190,6 +251,18 @@ theorem value_roundtrip_spec (h : EnvLaws env) (T : GoType) (N M k : Nat) (c : C
     ∃ r, read env n' c (bs ++ rest) (Codec.zero env c) = .ok (r, rest) ∧
       normSpec k T false r = normSpecD 7 k T false g :=
   ⟨_, value_roundtrip env c s hcf n n' m m' g bs bs' rest v hw ht he hok hnf,
+    normSpec_agrees env h N M m' k T false c g hc hty hN hk⟩
+
+/-- `value_roundtrip_spec` with an explicit budget -/
+theorem value_roundtrip_spec_budget (h : EnvLaws env) (T : GoType) (N M k : Nat) (c : Codec) (s : ASchema)
+    (hcf : CodecFor c s) (n n' m m' : Nat) (g : GoVal) (bs bs' rest : Bytes) (v : Value)
+    (hc : fieldCodec N T false = some c) (hty : Typed M T g) (hN : N ≤ m') (hk : N ≤ k)
+    (hw : write env n c g = some bs) (ht : toAvro env (omits env) m c g = some v)
+    (he : encode (canonPlan v) s v = some bs') (hok : RTOk env m' c g)
+    (hn : readBudget c v ≤ n') :
+    ∃ r, read env n' c (bs ++ rest) (Codec.zero env c) = .ok (r, rest) ∧
+      normSpec k T false r = normSpecD 7 k T false g :=
+  ⟨_, value_roundtrip_budget env c s hcf n n' m m' g bs bs' rest v hw ht he hok hn,
     normSpec_agrees env h N M m' k T false c g hc hty hN hk⟩
 
 /-! non-vacuity of the three: the example value is `RTOk`; with `Q` pointing to an empty slice it is
@@ -229,5 +302,222 @@ example : ∃ r, read toyEnv 10 exCodec (exBytes ++ [255]) (Codec.zero toyEnv ex
     (by decide +kernel) (by rfl) (by decide +kernel)
     (by simp [RTOk, exCodec, exVal, FieldsOk, Codec.zero, inRange, Codec.ptrDepth])
     (ne_fuel_of (by decide +kernel))
+
+/-! ### Whole files, from Go values to Go values -/
+
+/-- a call history of the `Encoder` API at the level of Go values -/
+inductive GoOp where
+  | encode (g : GoVal)
+  | flush
+
+/-- the values passed to `Encode`, in call order -/
+def GoOp.values : List GoOp → List GoVal
+  | [] => []
+  | .encode g :: ops => g :: GoOp.values ops
+  | .flush :: ops => GoOp.values ops
+
+/-- the same history at the level of bytes: `Encode(g)` appends what `Codec.Write` writes for `g` -/
+def writtenOps (n : Nat) (c : Codec) : List GoOp → List EncOp
+  | [] => []
+  | .encode g :: ops => .encode ((write env n c g).getD []) :: writtenOps n c ops
+  | .flush :: ops => .flush :: writtenOps n c ops
+
+theorem encodings_writtenOps (n : Nat) (c : Codec) : ∀ gops : List GoOp,
+    encodings (writtenOps env n c gops) = (GoOp.values gops).map (fun g => (write env n c g).getD [])
+  | [] => rfl
+  | .encode g :: ops => by simp [writtenOps, encodings, GoOp.values, encodings_writtenOps n c ops]
+  | .flush :: ops => by simp [writtenOps, encodings, GoOp.values, encodings_writtenOps n c ops]
+
+/-- what the record decoder with budget `N` makes of the bytes `r` (on their own) -/
+def decOf (N : Nat) (c : Codec) (r : Bytes) : GoVal :=
+  match read env N c r (Codec.zero env c) with
+  | .ok (g, _) => g
+  | _ => Codec.zero env c
+
+/-- **C01, whole files, values.** `c` is a codec the library builds for schema `s`; `gops` is ANY history
+of `Encode(g)` / `Flush` calls on Go values, closed by a final `Flush`; the file is what the encoder
+model writes for it (any block size, any compressor the reader's decompressor undoes, sync marker
+equal to the header's). Every written value `g` is well-typed for `c` (`write` succeeds), denotes a
+datum `v` (`toAvro`) that the specification can encode under `s` (the value is within the schema
+type's range) and satisfies the side conditions `RTOk` of `value_roundtrip`. The reader decodes
+records with `Codec.Read` into a zeroed destination with ONE fixed step budget `N`, at least
+`readBudget c v` for every written datum. Then `readFile` succeeds and delivers, in call order,
+exactly `normCodec … g` for every written `g` (see `value_roundtrip` for what `normCodec` is).
+No hypothesis mentions the file's bytes, `.fuel` or the decodability of anything; `hsmall`, `hn`,
+`hn63` are the representability limits of `file_roundtrip` (block payload length, number of records). -/
+theorem file_value_roundtrip {ε : Type} (cfg : EncCfg) (c : Codec) (s : ASchema) (hcf : CodecFor c s)
+    (n m m' N : Nat) (gops : List GoOp)
+    (hval : ∀ g ∈ GoOp.values gops, ∃ bs v bs', write env n c g = some bs ∧
+      toAvro env (omits env) m c g = some v ∧ encode (canonPlan v) s v = some bs' ∧ RTOk env m' c g ∧
+      readBudget c v ≤ N)
+    {X : File.Ext GoVal} {fuel : Nat} {H : File.Header} {sel : File.CodecSel}
+    (hh : File.ValidHeader X fuel cfg.header H sel (C03.recDecoder env N c)) (hs : H.sync = cfg.sync)
+    (hcomp : ∀ x, File.decompress X sel (cfg.compress x) = .ok x)
+    (hsmall : ∀ blk ∈ (specPart cfg.blockSize (writtenOps env n c gops ++ [.flush]) []).1,
+      (cfg.compress blk.flatten).length ≤ File.maxLen)
+    (hn : (GoOp.values gops).length < fuel) (hn63 : (GoOp.values gops).length < 2 ^ 63)
+    (cb : Nat → Option ε) (hcb : ∀ i, cb i = none) :
+    ∃ s' w', encRun cfg {} (writtenOps env n c gops ++ [.flush]) = (s', w', none) ∧ s'.count = 0 ∧ s'.wb = [] ∧
+      File.readFile X fuel cb w'.accepted = ⟨(GoOp.values gops).map (normCodec env m' c), .ok⟩ := by
+  have hlen : (encodings (writtenOps env n c gops)).length = (GoOp.values gops).length := by
+    rw [encodings_writtenOps]; simp
+  -- every written record is decoded exactly, whatever follows it
+  have hrec : ∀ g ∈ GoOp.values gops, ∀ rest,
+      read env N c ((write env n c g).getD [] ++ rest) (Codec.zero env c) = .ok (normCodec env m' c g, rest) := by
+    intro g hg rest
+    obtain ⟨bs, v, bs', hw, ht, he, hok, hb⟩ := hval g hg
+    rw [hw]
+    exact value_roundtrip_budget env c s hcf n N m m' g bs bs' rest v hw ht he hok hb
+  have hdecOf : ∀ g ∈ GoOp.values gops, decOf env N c ((write env n c g).getD []) = normCodec env m' c g := by
+    intro g hg
+    have := hrec g hg []
+    rw [List.append_nil] at this
+    simp only [decOf, this]
+  obtain ⟨s', w', hrun, hc0, hwb, hread⟩ :=
+    file_roundtrip (ε := ε) cfg (writtenOps env n c gops) hh hs hcomp hsmall (decOf env N c)
+      (by
+        intro r hr rest
+        rw [encodings_writtenOps] at hr
+        obtain ⟨g, hg, rfl⟩ := List.mem_map.mp hr
+        show read env N c _ _ = _
+        rw [hrec g hg rest, hdecOf g hg])
+      (by rw [hlen]; exact hn) (by rw [hlen]; exact hn63) cb hcb
+  refine ⟨s', w', hrun, hc0, hwb, ?_⟩
+  rw [hread, encodings_writtenOps, List.map_map]
+  congr 1
+  apply List.map_congr_left
+  intro g hg
+  exact hdecOf g hg
+
+/-- `file_value_roundtrip` with the reader's budget bounded from the written Go values alone
+(`goBudget`): every hypothesis is about the Go values, the codec, the configuration or the header. -/
+theorem file_value_roundtrip_go {ε : Type} (cfg : EncCfg) (c : Codec) (s : ASchema) (hcf : CodecFor c s)
+    (n m m' N : Nat) (gops : List GoOp)
+    (hval : ∀ g ∈ GoOp.values gops, ∃ bs v bs', write env n c g = some bs ∧
+      toAvro env (omits env) m c g = some v ∧ encode (canonPlan v) s v = some bs' ∧ RTOk env m' c g)
+    (hN : ∀ g ∈ GoOp.values gops, goBudget c g ≤ N)
+    {X : File.Ext GoVal} {fuel : Nat} {H : File.Header} {sel : File.CodecSel}
+    (hh : File.ValidHeader X fuel cfg.header H sel (C03.recDecoder env N c)) (hs : H.sync = cfg.sync)
+    (hcomp : ∀ x, File.decompress X sel (cfg.compress x) = .ok x)
+    (hsmall : ∀ blk ∈ (specPart cfg.blockSize (writtenOps env n c gops ++ [.flush]) []).1,
+      (cfg.compress blk.flatten).length ≤ File.maxLen)
+    (hn : (GoOp.values gops).length < fuel) (hn63 : (GoOp.values gops).length < 2 ^ 63)
+    (cb : Nat → Option ε) (hcb : ∀ i, cb i = none) :
+    ∃ s' w', encRun cfg {} (writtenOps env n c gops ++ [.flush]) = (s', w', none) ∧ s'.count = 0 ∧ s'.wb = [] ∧
+      File.readFile X fuel cb w'.accepted = ⟨(GoOp.values gops).map (normCodec env m' c), .ok⟩ :=
+  file_value_roundtrip env cfg c s hcf n m m' N gops
+    (fun g hg => by
+      obtain ⟨bs, v, bs', hw, ht, he, hok⟩ := hval g hg
+      exact ⟨bs, v, bs', hw, ht, he, hok, Nat.le_trans (readBudget_le_goBudget env _ ht) (hN g hg)⟩)
+    hh hs hcomp hsmall hn hn63 cb hcb
+
+/-! Non-vacuity of `file_value_roundtrip`: three struct values (one with a nil `*[]int32`, which comes
+back as a pointer to the empty slice) written with a `Flush` in between, block size 12, read back with
+the single record budget `27 = readBudget exCodec exDatum`. -/
+
+def exGops : List GoOp := [.encode exVal, .flush, .encode exValPlain, .encode exVal]
+def exHdrV : Bytes := File.mkHeader [[(File.kSchema, [0x22]), (File.kCodec, File.vNull)]] C07.exSync
+def exCfgV : EncCfg := { blockSize := 12, compress := id, sync := C07.exSync, header := exHdrV }
+def exXV : File.Ext GoVal :=
+  { inflate := fun c => some c, unsnappy := fun c => some c, crc := fun _ => 0,
+    build := fun _ => some (C03.recDecoder toyEnv 27 exCodec) }
+
+example : ∃ s' w', encRun exCfgV {} (writtenOps toyEnv 10 exCodec exGops ++ [.flush]) = (s', w', none) ∧ s'.count = 0 ∧ s'.wb = [] ∧
+    File.readFile exXV 9 (fun _ => (none : Option Unit)) w'.accepted =
+      ⟨[exVal, exValPlain, exVal].map (normCodec toyEnv 5 exCodec), .ok⟩ := by
+  have hcf : CodecFor exCodec exSchema :=
+    .record (.cons (.map .intL) (.cons (.unionOne1 (.pointer .string)) (.cons (.pointer (.array .intI)) .nil))) rfl
+  have hh : File.ValidHeader exXV 9 exCfgV.header
+      { «meta» := File.metaOf [[(File.kSchema, [0x22]), (File.kCodec, File.vNull)]], sync := C07.exSync } .null
+      (C03.recDecoder toyEnv 27 exCodec) := by
+    refine C07.valid_mkHeader exXV _ C07.exSync 9 ?_ (by decide) (by decide) .null _ (by decide) ⟨[0x22], by decide, rfl⟩
+    intro es hes
+    simp only [List.mem_singleton] at hes
+    subst hes
+    refine ⟨by simp, by decide, ?_⟩
+    intro kv hkv
+    simp only [List.mem_cons, List.not_mem_nil, or_false] at hkv
+    rcases hkv with rfl | rfl <;> exact ⟨by decide, by decide⟩
+  exact file_value_roundtrip (ε := Unit) toyEnv exCfgV exCodec exSchema hcf 10 10 5 27 exGops
+    (by
+      intro g hg
+      simp only [exGops, GoOp.values, List.mem_cons, List.not_mem_nil, or_false] at hg
+      rcases hg with rfl | rfl | rfl
+      · exact ⟨exBytes, exDatum, exBytes, by decide +kernel, by rfl, by decide +kernel,
+          by simp [RTOk, exCodec, exVal, FieldsOk, Codec.zero, inRange, Codec.ptrDepth], by decide +kernel⟩
+      · exact ⟨exBytes, exDatum, exBytes, by decide +kernel, by rfl, by decide +kernel,
+          by simp [RTOk, exCodec, exValPlain, FieldsOk, Codec.zero, inRange], by decide +kernel⟩
+      · exact ⟨exBytes, exDatum, exBytes, by decide +kernel, by rfl, by decide +kernel,
+          by simp [RTOk, exCodec, exVal, FieldsOk, Codec.zero, inRange, Codec.ptrDepth], by decide +kernel⟩)
+    hh rfl (fun x => rfl) (by decide +kernel) (by decide) (by decide) (fun _ => none) (fun _ => rfl)
+
+/-! Non-vacuity of `file_value_roundtrip_go` (and of `goBudget`): the same history, the reader's budget
+`211` computed from the Go values alone. -/
+
+example : goBudget exCodec exVal = 171 ∧ goBudget exCodec exValPlain = 211 := by decide +kernel
+
+def exXG : File.Ext GoVal :=
+  { inflate := fun c => some c, unsnappy := fun c => some c, crc := fun _ => 0,
+    build := fun _ => some (C03.recDecoder toyEnv 211 exCodec) }
+
+example : ∃ s' w', encRun exCfgV {} (writtenOps toyEnv 10 exCodec exGops ++ [.flush]) = (s', w', none) ∧ s'.count = 0 ∧ s'.wb = [] ∧
+    File.readFile exXG 9 (fun _ => (none : Option Unit)) w'.accepted =
+      ⟨[exVal, exValPlain, exVal].map (normCodec toyEnv 5 exCodec), .ok⟩ := by
+  have hcf : CodecFor exCodec exSchema :=
+    .record (.cons (.map .intL) (.cons (.unionOne1 (.pointer .string)) (.cons (.pointer (.array .intI)) .nil))) rfl
+  have hh : File.ValidHeader exXG 9 exCfgV.header
+      { «meta» := File.metaOf [[(File.kSchema, [0x22]), (File.kCodec, File.vNull)]], sync := C07.exSync } .null
+      (C03.recDecoder toyEnv 211 exCodec) := by
+    refine C07.valid_mkHeader exXG _ C07.exSync 9 ?_ (by decide) (by decide) .null _ (by decide) ⟨[0x22], by decide, rfl⟩
+    intro es hes
+    simp only [List.mem_singleton] at hes
+    subst hes
+    refine ⟨by simp, by decide, ?_⟩
+    intro kv hkv
+    simp only [List.mem_cons, List.not_mem_nil, or_false] at hkv
+    rcases hkv with rfl | rfl <;> exact ⟨by decide, by decide⟩
+  exact file_value_roundtrip_go (ε := Unit) toyEnv exCfgV exCodec exSchema hcf 10 10 5 211 exGops
+    (by
+      intro g hg
+      simp only [exGops, GoOp.values, List.mem_cons, List.not_mem_nil, or_false] at hg
+      rcases hg with rfl | rfl | rfl
+      · exact ⟨exBytes, exDatum, exBytes, by decide +kernel, by rfl, by decide +kernel,
+          by simp [RTOk, exCodec, exVal, FieldsOk, Codec.zero, inRange, Codec.ptrDepth]⟩
+      · exact ⟨exBytes, exDatum, exBytes, by decide +kernel, by rfl, by decide +kernel,
+          by simp [RTOk, exCodec, exValPlain, FieldsOk, Codec.zero, inRange]⟩
+      · exact ⟨exBytes, exDatum, exBytes, by decide +kernel, by rfl, by decide +kernel,
+          by simp [RTOk, exCodec, exVal, FieldsOk, Codec.zero, inRange, Codec.ptrDepth]⟩)
+    (by
+      intro g hg
+      simp only [exGops, GoOp.values, List.mem_cons, List.not_mem_nil, or_false] at hg
+      rcases hg with rfl | rfl | rfl <;> decide +kernel)
+    hh rfl (fun x => rfl) (by decide +kernel) (by decide) (by decide) (fun _ => none) (fun _ => rfl)
+
+/-- non-vacuity of `value_roundtrip_exact_budget` / `value_roundtrip_spec_budget` -/
+example (rest : Bytes) : read toyEnv 27 exCodec (exBytes ++ rest) (Codec.zero toyEnv exCodec) = .ok (exValPlain, rest) := by
+  have hcf : CodecFor exCodec exSchema :=
+    .record (.cons (.map .intL) (.cons (.unionOne1 (.pointer .string)) (.cons (.pointer (.array .intI)) .nil))) rfl
+  exact value_roundtrip_exact_budget toyEnv toyEnv_laws exCodec exSchema hcf 10 27 10 5 exValPlain exBytes exBytes rest exDatum
+    (by decide +kernel) (by rfl) (by decide +kernel)
+    (by simp [RTOk, exCodec, exValPlain, FieldsOk, Codec.zero, inRange])
+    (by
+      simp [Plain, PlainFields, exCodec, exValPlain, omits]
+      intro j h0 h1 h2
+      match j with
+      | 0 => exact absurd rfl h0
+      | 1 => exact absurd rfl h1
+      | 2 => exact absurd rfl h2
+      | j + 3 => rfl)
+    (by decide +kernel)
+
+example (rest : Bytes) : ∃ r, read toyEnv 27 exCodec (exBytes ++ rest) (Codec.zero toyEnv exCodec) = .ok (r, rest) ∧
+    normSpec 8 exType false r = normSpecD 7 8 exType false exVal := by
+  have hcf : CodecFor exCodec exSchema :=
+    .record (.cons (.map .intL) (.cons (.unionOne1 (.pointer .string)) (.cons (.pointer (.array .intI)) .nil))) rfl
+  exact value_roundtrip_spec_budget toyEnv toyEnv_laws exType 8 5 8 exCodec exSchema hcf 10 27 10 8 exVal exBytes exBytes
+    rest exDatum (by rfl) (by simp [Typed, TypedFields, exType, exVal, GoField.type, isU8n]) (by omega) (by omega)
+    (by decide +kernel) (by rfl) (by decide +kernel)
+    (by simp [RTOk, exCodec, exVal, FieldsOk, Codec.zero, inRange, Codec.ptrDepth])
+    (by decide +kernel)
 
 end Avro.C01
